@@ -1,7 +1,7 @@
 (** Property C07 — 1-D MOC serialisation round-trips.  Statements only. *)
 From Coq Require Import List NArith Permutation Sorted.
 From MOC.Base Require Import RangeSet.
-From MOC.Model Require Import Qty Query Build Repr Serial CellsSM Adapters AsciiCodec AsciiProofs AsciiMoc.
+From MOC.Model Require Import Qty Query Build Repr Serial CellsSM Adapters AsciiCodec AsciiProofs AsciiStreamProofs AsciiMoc.
 Import ListNotations.
 Open Scope N_scope.
 
@@ -87,6 +87,22 @@ Proof. exact ascii_cells_roundtrip. Qed.
 Theorem C07_ascii_cells_are_normal : forall q w d l, ValidMoc q w d l -> NormalCells q w d l (moc_cells q w d l).
 Proof. exact moc_cells_normal. Qed.
 
+(** ---- streaming ASCII, character level (to_ascii_stream / from_ascii_stream as written) ---- *)
+Theorem C07_ascii_stream_number_roundtrip : forall w x, w <= 64 -> x < 2 ^ w -> parse_uint w (adec x) = Some x.
+Proof. exact parse_uint_adec. Qed.
+
+(** every list of well-formed elements of depth <= dmax comes back, in file order, both notations *)
+Theorem C07_ascii_stream_roundtrip : forall q w, okw w -> forall dmax ul es,
+  dmax <= max_depth q w -> Forall (elem_wf q dmax) es ->
+  from_ascii_stream q w (to_ascii_stream q dmax ul es) = SOk dmax es.
+Proof. exact ascii_stream_roundtrip. Qed.
+
+Theorem C07_ascii_stream_moc_roundtrip : forall q w d l cells ul,
+  okw w -> d <= max_depth q w -> Canon l -> NormalCells q w d l cells ->
+  from_ascii_stream q w (to_ascii_stream q d ul (elems_of_cells cells)) = SOk d (elems_of_cells cells) /\
+  ranges_of_elems q w (elems_of_cells cells) = l.
+Proof. exact ascii_stream_cells_roundtrip. Qed.
+
 Example C07_nonvacuous :
   encode_rows 2 [(1, 258); (1024, 12288)] = [0; 1; 1; 2; 4; 0; 48; 0] /\
   decode_rows 2 2 [0; 1; 1; 2; 4; 0; 48; 0] = [(1, 258); (1024, 12288)] /\
@@ -120,3 +136,6 @@ Print Assumptions C07_ascii_reader_sound.
 Print Assumptions C07_ascii_sort_instance.
 Print Assumptions C07_ascii_moc_roundtrip.
 Print Assumptions C07_ascii_cells_are_normal.
+Print Assumptions C07_ascii_stream_number_roundtrip.
+Print Assumptions C07_ascii_stream_roundtrip.
+Print Assumptions C07_ascii_stream_moc_roundtrip.
